@@ -322,5 +322,6 @@ Proof.
   rewrite (hashStruct_top H big_other _ _ Hrep Hwf Hdims domain_name _ _ Hdn Hdom Htd); cbn [bind].
   all: unfold digest; destruct (bytes_eqb (d_primary d) domain_name) eqn:Eq; cbn [negb].
   all: try (rewrite app_nil_r; reflexivity).
+  all: destruct Hmsg as [Hmsg|Hmsg]; [congruence|]; destruct Htm as [Htm|Htm]; [congruence|].
   all: rewrite (hashStruct_top H big_other _ _ Hrep Hwf Hdims (d_primary d) _ _ Hpn Hmsg Htm); reflexivity.
 Qed.
